@@ -4,7 +4,7 @@ from ..rules import r1, r3, r8, r12, r12b, r8
 
 
 def run(ctx: Ctx) -> list[Ob]:
-    return r3.r3c(ctx) + r3.r3d(ctx) + r3.r3e(ctx) + r3.r3f(ctx) + r12.r12a_outputs(ctx) + r8.run_guards(ctx, r8.GUARDS_MATCHERS) + r3.r3g(ctx) + r1.r1d_sweep(ctx) + r12b.layer_rewrites(ctx) + r12b.param_rewrites(ctx)
+    return r3.r3c(ctx) + r3.r3d(ctx) + r3.r3e(ctx) + r3.r3f(ctx) + r12.r12a_outputs(ctx) + r8.run_guards(ctx, r8.GUARDS_MATCHERS) + r3.r3g(ctx) + r1.r1d_sweep(ctx) + r12b.layer_rewrites(ctx) + r12b.param_rewrites(ctx) + r12b.shatter_rewrites(ctx)
 
 
 SPEC = PropSpec(
